@@ -42,9 +42,12 @@ OptErrors == {"OptimizationError", "Infeasible", "Unbounded", "FeasibleButNotOpt
 ApplyEdit(m, s) ==
   CASE s.op = "setbounds" -> [m EXCEPT !.lb[s.r] = s.lb, !.ub[s.r] = s.ub]
     [] s.op = "setobj" -> [m EXCEPT !.c[s.r] = s.k]
+    \* model.objective = {reaction: coefficient ...}: the whole objective is replaced -- by nothing when the
+    \* dictionary is empty (the direction stays)
+    [] s.op = "setobjdict" -> [m EXCEPT !.c = [k \in 1..Len(m.c) |-> IF k = s.r THEN s.k ELSE IF k = s.r2 THEN s.k2 ELSE 0]]
     [] s.op = "setdir" -> [m EXCEPT !.dir = s.dir]
     [] OTHER -> m
-IsEdit(s) == s.op \in {"setbounds", "setobj", "setdir"}
+IsEdit(s) == s.op \in {"setbounds", "setobj", "setdir", "setobjdict"}
 LoggedModel(m, lg) == [m EXCEPT !.lb = lg.lb, !.ub = lg.ub, !.c = lg.c, !.dir = lg.dir]
 
 If(b, x) == IF b THEN {x} ELSE {}
